@@ -426,6 +426,16 @@ fn run_ops<S: Sut>(cfg: &S::Cfg, start: &Start<S::Op>, hist: &[&HOp<S::Op>]) -> 
     Ok(live)
 }
 
+/// Coarse profile of candidate evaluation (ns): start+ops, live battery,
+/// probe flush, probe load+battery, dedup key, crash enumeration.
+pub static PROF: [std::sync::atomic::AtomicU64; 6] = [const { std::sync::atomic::AtomicU64::new(0) }; 6];
+
+fn prof(i: usize, t: &mut Instant) {
+    let now = Instant::now();
+    PROF[i].fetch_add((now - *t).as_nanos() as u64, Ordering::Relaxed);
+    *t = now;
+}
+
 fn eval_inner<S: Sut>(
     cfg: &S::Cfg,
     start: &Start<S::Op>,
@@ -434,6 +444,7 @@ fn eval_inner<S: Sut>(
     c: &mut Cand,
 ) -> Result<(), Fail> {
     let n = hist.len();
+    let mut t = Instant::now();
     let mut live = start_live::<S>(cfg, start)?;
     for (i, op) in hist.iter().enumerate() {
         if i + 1 < n {
@@ -442,17 +453,20 @@ fn eval_inner<S: Sut>(
             step(&mut live, cfg, op)?;
         }
     }
+    prof(0, &mut t);
     // light battery on the live index
     {
         let (idx, model) = (&live.idx, &live.model);
         let evals = &mut c.evals;
         guard("battery", || S::light_battery(idx, cfg, model, evals))?;
     }
+    prof(1, &mut t);
     let flags = S::flags(&live.idx);
     let committed_before = live.committed.clone();
     // probe: flush + load + battery
     let rec = do_flush(&mut live, None).map_err(|(_, e)| Fail::new("probe:flush-error", e))?;
     c.journal = rec.journal.iter().map(entry_label).collect();
+    prof(2, &mut t);
     {
         let store = &live.store;
         let loaded = guard("probe:load", || {
@@ -462,6 +476,7 @@ fn eval_inner<S: Sut>(
         let evals = &mut c.evals;
         guard("probe:battery", || S::light_battery(&loaded, cfg, model, evals)).map_err(|f| f.prefixed("probe:"))?;
     }
+    prof(3, &mut t);
     c.model_key = S::model_key(&live.model);
     let written: String = rec
         .journal
@@ -480,9 +495,11 @@ fn eval_inner<S: Sut>(
         written
     );
     c.key = two_hashes(&key_str);
+    prof(4, &mut t);
 
     if let Mode::Crash(opts) = mode {
         crash_enumerate::<S>(cfg, start, hist, opts, &rec, &committed_before, &live.model, c)?;
+        prof(5, &mut t);
     }
     Ok(())
 }
